@@ -1,6 +1,7 @@
 package main
 
 import (
+	"bytes"
 	"context"
 	"encoding/json"
 	"fmt"
@@ -255,10 +256,7 @@ func createCompiledRouteHandlerWithTypes(route *ast.Route, bytecode []byte, wsHu
 		// Unwrap status-carrying results from guards and `> value :: N`
 		// (see compiler.StatusKey).
 		if body, status, ok := unwrapStatusResult(result); ok {
-			ctx.StatusCode = status
-			ctx.ResponseWriter.Header().Set("Content-Type", "application/json")
-			ctx.ResponseWriter.WriteHeader(status)
-			return json.NewEncoder(ctx.ResponseWriter).Encode(body)
+			return writeStatusJSON(ctx, status, body)
 		}
 
 		// Set response
@@ -297,10 +295,7 @@ func createRouteHandler(route *ast.Route, interp *interpreter.Interpreter) serve
 			// Reporting those as 500 blames the server for a bad request and
 			// tells the caller nothing about what to fix.
 			if response != nil && response.StatusCode >= 400 && response.StatusCode < 500 {
-				ctx.StatusCode = response.StatusCode
-				ctx.ResponseWriter.Header().Set("Content-Type", "application/json")
-				ctx.ResponseWriter.WriteHeader(response.StatusCode)
-				return json.NewEncoder(ctx.ResponseWriter).Encode(response.Body)
+				return writeStatusJSON(ctx, response.StatusCode, response.Body)
 			}
 			return writeInternalError(ctx, fmt.Errorf("route execution error: %w", err))
 		}
@@ -334,13 +329,29 @@ func createRouteHandler(route *ast.Route, interp *interpreter.Interpreter) serve
 
 		// Default JSON response, honoring the interpreter's status code
 		// (guards and `> value :: N` set non-200 values).
+		if response.StatusCode != http.StatusOK {
+			return writeStatusJSON(ctx, response.StatusCode, response.Body)
+		}
 		ctx.StatusCode = response.StatusCode
 		ctx.ResponseWriter.Header().Set("Content-Type", "application/json")
-		if response.StatusCode != http.StatusOK {
-			ctx.ResponseWriter.WriteHeader(response.StatusCode)
-		}
 		return json.NewEncoder(ctx.ResponseWriter).Encode(response.Body)
 	}
+}
+
+// writeStatusJSON sends body as JSON with an explicit status. The body is
+// encoded before the status line is committed: a value JSON cannot carry (NaN,
+// an infinity) has to end as a 500, not as the route's own status with the
+// dispatcher's error body appended to it.
+func writeStatusJSON(ctx *server.Context, status int, body interface{}) error {
+	var buf bytes.Buffer
+	if err := json.NewEncoder(&buf).Encode(body); err != nil {
+		return writeInternalError(ctx, fmt.Errorf("failed to encode response: %w", err))
+	}
+	ctx.StatusCode = status
+	ctx.ResponseWriter.Header().Set("Content-Type", "application/json")
+	ctx.ResponseWriter.WriteHeader(status)
+	_, err := ctx.ResponseWriter.Write(buf.Bytes())
+	return err
 }
 
 // executeRoute executes a route's body and returns the full interpreter response.
